@@ -161,7 +161,7 @@ Proof. intros H. unfold SvdValid, svd_ident. cbn [sk sU sS sV]. repeat split; au
 
 (* ---------- pinv: the four Penrose equations ---------- *)
 Definition Penrose (m n : nat) (A X : fm) : Prop :=
-  feq m n (mmul n (mmul n A X) A) A /\ feq n m (mmul m (mmul m X A) X) X /\
+  feq m n (mmul m (mmul n A X) A) A /\ feq n m (mmul n (mmul m X A) X) X /\
   feq m m (cj (mmul n A X)) (mmul n A X) /\ feq n n (cj (mmul m X A)) (mmul m X A).
 Lemma penrose_of_inv2 n A X : inv2 n A X -> Penrose n n A X.
 Proof. intros [HXA HAX]. repeat split.
